@@ -2446,7 +2446,7 @@ PSymbolEntry EnterIntSymbolWithFlags(
     pNeu->RefList               = NULL;
     pNeu->SymWert.Relocs        = NULL;
 
-    if ((MomLocHandle == -1) || (DestHandle != -2)) {
+    if ((MomLocHandle == -1) || (DestHandle != -2) || MayChange) {
         EnterSymbol(pNeu, MayChange, DestHandle);
         if (MakeDebug) {
             PrintSymTree(pNeu->Tree.Name);
@@ -2486,7 +2486,7 @@ void EnterExtSymbol(
     pNeu->SymWert.Relocs->Ref   = as_strdup(pNeu->Tree.Name);
     pNeu->SymWert.Relocs->Add   = True;
 
-    if ((MomLocHandle == -1) || (DestHandle != -2)) {
+    if ((MomLocHandle == -1) || (DestHandle != -2) || MayChange) {
         EnterSymbol(pNeu, MayChange, DestHandle);
         if (MakeDebug) {
             PrintSymTree(pNeu->Tree.Name);
@@ -2526,7 +2526,7 @@ PSymbolEntry EnterRelSymbol(
     pNeu->SymWert.Relocs->Ref   = as_strdup(RelName_SegStart);
     pNeu->SymWert.Relocs->Add   = True;
 
-    if ((MomLocHandle == -1) || (DestHandle != -2)) {
+    if ((MomLocHandle == -1) || (DestHandle != -2) || MayChange) {
         EnterSymbol(pNeu, MayChange, DestHandle);
         if (MakeDebug) {
             PrintSymTree(pNeu->Tree.Name);
@@ -2561,7 +2561,7 @@ void EnterFloatSymbol(tStrComp const* pName, Double Wert, Boolean MayChange) {
     pNeu->RefList               = NULL;
     pNeu->SymWert.Relocs        = NULL;
 
-    if ((MomLocHandle == -1) || (DestHandle != -2)) {
+    if ((MomLocHandle == -1) || (DestHandle != -2) || MayChange) {
         EnterSymbol(pNeu, MayChange, DestHandle);
         if (MakeDebug) {
             PrintSymTree(pNeu->Tree.Name);
@@ -2601,7 +2601,7 @@ void EnterNonZStringSymbolWithFlags(
     pNeu->RefList          = NULL;
     pNeu->SymWert.Relocs   = NULL;
 
-    if ((MomLocHandle == -1) || (DestHandle != -2)) {
+    if ((MomLocHandle == -1) || (DestHandle != -2) || MayChange) {
         EnterSymbol(pNeu, MayChange, DestHandle);
         if (MakeDebug) {
             PrintSymTree(pNeu->Tree.Name);
@@ -2654,7 +2654,7 @@ void EnterRegSymbol(
     pNeu->RefList               = NULL;
     pNeu->SymWert.Relocs        = NULL;
 
-    if ((MomLocHandle == -1) || (DestHandle != -2)) {
+    if ((MomLocHandle == -1) || (DestHandle != -2) || MayChange) {
         EnterSymbol(pNeu, MayChange, DestHandle);
         if (MakeDebug) {
             PrintSymTree(pNeu->Tree.Name);
